@@ -553,7 +553,11 @@ class ExceptionTrace(object):
         _write_line(io, "{}{}".format(indent * " ", _safe_markup(line)))
 
     def _get_relative_file_path(self, filepath):
-        cwd = os.getcwd()
+        try:
+            cwd = os.getcwd()
+        except OSError:
+            # The current directory no longer exists: paths stay absolute
+            cwd = None
 
         if cwd:
             filepath = filepath.replace(cwd + os.path.sep, "")
